@@ -296,7 +296,8 @@ CLAIMS = {
              "for every history of kernel requests a file row is in a product state only if an earlier accepted define or "
              "amend declared that path as an output, hence every path the cleanup queues was declared as an output "
              "(cleanup_queues_only_declared_outputs). Directed scenarios on whole simulated builds: a volatile leftover adopted by a "
-             "static tree, a static file whose declaration was lost, an optional step added back after a revert.",
+             "static tree, a static file whose declaration was lost, an optional step added back after a revert, a watch-mode director "
+             "whose removal queue must not survive a cleanup pass.",
         note=BASE_NOTE + "That the director only issues the modelled requests, and what happens to the files on disk, is decided "
              "by the oracle on simulated histories (plan edits, user modifications, stray files, targets, --no-clean, "
              "interleaved `stepup clean` runs; the scratch tree is snapshotted around every removal pass). File system "
@@ -421,7 +422,8 @@ CLAIMS = {
              "step's reads against the content recorded at the end of the build; FAIL + drain + no later dispatch after a "
              "change under a running command; availability of declared inputs at command start; freshness of accepted amends "
              "(also two-element amends and constant rewriters with a partial intermediate file, and a read-then-amend family "
-             "under a directed schedule); a file rewritten while it is hashed.",
+             "under a directed schedule); a file rewritten while it is hashed; the step's side of amend() (the real function with a "
+             "captured client: a refusal stops the step and is asked again, the history remembers files not spellings).",
         note=BASE_NOTE + "The two models are tied to the code by correspondence with the real Scheduler methods (clock with "
              "ties) and the real Executor.execute_job, Step.mark_completed and DirectorHandler.amend_step on real files (only "
              "launch_command and the hash thread replaced), including rows changed by another request between hashing and "
